@@ -95,6 +95,7 @@ func runC12(r *harness.Run) {
 	}
 	c12ProgramFamilies(r)
 	c12ErrDeeper(r)
+	manyResults(r)
 	runPinned(r, "C12")
 	pinnedGoCallByParam(r)
 	overflowHistory(r)
